@@ -684,8 +684,9 @@ def judge_produced(ctx, m, value, what, mode, desc):
     ctx.monitor(f"{what}_judged")
     probs = produced_problems(m, xn)
     for path, kind, prob in probs[:3]:
-        ctx.violation(f"{kind}-{what}-{prob}", {"space": mrepr(m), "mode": mode, "path": path, "got": xdesc(xn),
-                                                 "case": desc})
+        ctx.violation(f"{kind}-{what}-{prob}", {"space": mrepr(m), "mode": mode, "path": path, "case": desc,
+                                                 "got": xn if isinstance(xn, np.ndarray) else xdesc(xn),
+                                                 "low": m.get("low"), "high": m.get("high")})
     return xn, not probs
 
 
@@ -793,6 +794,521 @@ def u_sample_nested(ctx):
         ctx.monitor("spaces_sampled")
     ctx.require("sample_judged", 200)
     ctx.require("canonical_judged", 40)
+
+
+# ---------------------------------------------------------------------------------- Discrete masks
+def judge_masked(ctx, n, mask, rep, value, mode, desc):
+    mask = np.asarray(mask, bool)
+    ms = "".join("1" if b else "0" for b in mask[:64])
+    ctx.case(dict(desc, n=n, mask=ms, rep=rep, mode=mode), nontrivial=not mask.all(), cls=f"masked-sample/{mode}/{rep}")
+    ctx.monitor("masked_samples_judged")
+    a = np.asarray(value)
+    if a.shape != () or a.dtype.kind not in "iu" or not (0 <= int(a) < n):
+        ctx.violation("discrete-masked-sample-not-member", {"n": n, "mask": ms, "rep": rep, "mode": mode, "got": a})
+        return None
+    if not mask[int(a)]:
+        ctx.violation("discrete-sample-ignores-mask", {"n": n, "mask": ms, "rep": rep, "mode": mode, "got": int(a),
+                                                       "allowed": np.flatnonzero(mask)})
+        return None
+    return int(a)
+
+
+def u_mask(ctx):
+    import itertools
+
+    import equinox as eqx
+    import jax
+    from jax import numpy as jnp
+    from jax import random as jr
+    from lerax.space import Discrete
+
+    rng = ctx.rng
+    jobs = []
+    for n in range(1, 6):
+        for bits in itertools.product([False, True], repeat=n):
+            if any(bits):
+                jobs.append((n, np.array(bits, bool), "exhaustive"))
+        ctx.monitor("exhaustive_mask_sets_n_le_5")
+    for n in [6, 8, 17, 64, 200, 1000]:
+        for r in range(ctx.n(4, 20)):
+            mk = rng.random(n) < rng.choice([0.05, 0.3, 0.7, 0.95])
+            if not mk.any():
+                mk[rng.integers(n)] = True
+            jobs.append((n, mk, "random"))
+        for pos in {0, n - 1, int(rng.integers(n))}:
+            mk = np.zeros(n, bool)
+            mk[pos] = True
+            jobs.append((n, mk, "single-allowed"))
+            jobs.append((n, ~mk, "single-forbidden"))
+    spaces = {}
+    for ji, (n, mk, kind) in enumerate(jobs):
+        sp = spaces.setdefault(n, Discrete(n))
+        seen = set()
+        for rep, mobj in (("jnp", jnp.asarray(mk)), ("np", mk), ("list", [bool(b) for b in mk])):
+            for j in range(ctx.n(3, 8)):
+                kid = ji * 100 + j
+                try:
+                    v = sp.sample(key=ctx.key(kid), mask=mobj)
+                except Exception as e:  # noqa: BLE001
+                    ctx.violation("discrete-masked-sample-raises", {"n": n, "rep": rep, "err": f"{type(e).__name__}: {str(e)[:200]}"})
+                    break
+                r = judge_masked(ctx, n, mk, rep, v, "eager", {"key": kid})
+                if r is not None:
+                    seen.add(r)
+        K = ctx.n(96, 512)
+        try:
+            vs = np.asarray(jax.vmap(lambda k: sp.sample(key=k, mask=jnp.asarray(mk)))(jr.split(ctx.key(ji * 100 + 99), K)))
+            for j in range(K):
+                r = judge_masked(ctx, n, mk, "jnp", vs[j], "vmap", {"key": ji * 100 + 99, "i": j})
+                if r is not None:
+                    seen.add(r)
+        except Exception as e:  # noqa: BLE001
+            ctx.violation("discrete-masked-sample-raises", {"n": n, "mode": "vmap", "err": f"{type(e).__name__}: {str(e)[:200]}"})
+        if ji % 9 == 0:
+            try:
+                v = eqx.filter_jit(lambda s_, k, mm: s_.sample(key=k, mask=mm))(sp, ctx.key(ji * 100 + 98), jnp.asarray(mk))
+                judge_masked(ctx, n, mk, "jnp", v, "jit", {"key": ji * 100 + 98})
+            except Exception as e:  # noqa: BLE001
+                ctx.violation("discrete-masked-sample-raises", {"n": n, "mode": "jit", "err": f"{type(e).__name__}: {str(e)[:200]}"})
+        ctx.monitor("masks_tried")
+        if seen == set(np.flatnonzero(mk).tolist()):
+            ctx.monitor("masks_with_every_allowed_value_observed")
+        if not mk.all():
+            ctx.monitor("masks_with_a_forbidden_value")
+    ctx.require("masked_samples_judged", 2000)
+    ctx.require("masks_with_a_forbidden_value", 50)
+    ctx.require("exhaustive_mask_sets_n_le_5", 5)
+
+
+# ---------------------------------------------------------------------------------- flatten_sample
+def near_value(rng, lm, v):
+    """Another member of the leaf that differs from v in exactly one element (None if the leaf has one member)."""
+    from vlib.c14_helpers import F32TINY
+
+    k = lm["k"]
+    a = np.array(v).copy()
+    if k == "discrete":
+        return None if lm["n"] == 1 else np.asarray((int(a) + 1) % lm["n"], a.dtype)
+    if k == "multidiscrete":
+        idx = [i for i, n in enumerate(lm["nvec"]) if n > 1]
+        if not idx:
+            return None
+        i = idx[int(rng.integers(len(idx)))]
+        a[i] = (int(a[i]) + 1) % lm["nvec"][i]
+        return a
+    if k == "multibinary":
+        f = a.ravel()
+        i = int(rng.integers(f.size))
+        f[i] = not f[i]
+        return f.reshape(a.shape)
+    lo, hi = lm["low"].ravel(), lm["high"].ravel()
+    idx = [i for i in range(lo.size) if lo[i] < hi[i]]
+    if not idx:
+        return None
+    i = idx[int(rng.integers(len(idx)))]
+    f = a.ravel()
+    with np.errstate(all="ignore"):
+        up = np.nextafter(f[i], np.float32(np.inf))
+        dn = np.nextafter(f[i], np.float32(-np.inf))
+    for w in (up, dn, hi[i], lo[i]):
+        if np.isfinite(w) and lo[i] <= w <= hi[i] and w != f[i] and (w == 0 or abs(w) >= F32TINY) and not (w == 0 and f[i] == 0):
+            f[i] = w
+            return f.reshape(a.shape)
+    return None
+
+
+def first_difference(m, x, y):
+    """(leaf model, value x, value y) of the first leaf where two structurally aligned values differ."""
+    from vlib.c14_helpers import get_node, get_value, leaf_paths
+
+    for path in leaf_paths(m):
+        a, b = np.asarray(get_value(m, x, path)), np.asarray(get_value(m, y, path))
+        if a.shape != b.shape or not np.array_equal(a, b):
+            return get_node(m, path), a, b
+    return None
+
+
+def inj_key(lm, a, b):
+    if lm["k"] in ("discrete", "multidiscrete") and max(np.max(np.abs(a)), np.max(np.abs(b))) >= 2**24:
+        return "flatten-not-injective-large-index"  # float32 cannot tell neighbouring integers apart above 2**24
+    return f"flatten-not-injective-{lm['k']}"
+
+
+def run_flatten(ctx, m, space, values, tag):
+    """values: numpy-level members.  Checks size / dtype / finiteness of every flattening and that
+    distinct members never flatten to the same vector."""
+    from vlib.c14_helpers import mrepr, values_equal, xdesc
+
+    try:
+        fs = space.flat_size
+    except Exception as e:  # noqa: BLE001
+        ctx.violation(f"{m['k']}-flat-size-raises", {"space": mrepr(m), "err": repr(e)[:200]})
+        return
+    if not isinstance(fs, (int, np.integer)) or isinstance(fs, bool) or fs < 0:
+        ctx.violation("flat-size-not-an-int", {"space": mrepr(m), "got": repr(fs)})
+        return
+    flats = []
+    for i, x in enumerate(values):
+        ctx.case({"sp": mrepr(m), "x": xdesc(x), "tag": tag}, nontrivial=True, cls=f"flatten/{m['k']}/{tag}")
+        try:
+            f = space.flatten_sample(to_jnp(x) if i % 2 == 0 else x)
+        except Exception as e:  # noqa: BLE001
+            key = "dict-flatten-empty-raises" if (m["k"] == "dict" and not m["items"]) else f"{m['k']}-flatten-raises"
+            ctx.violation(key, {"space": mrepr(m), "value": xdesc(x), "err": f"{type(e).__name__}: {str(e)[:200]}"})
+            flats.append(None)
+            continue
+        ctx.monitor("flatten_outputs_checked")
+        f = np.asarray(f)
+        flats.append(f)
+        if f.ndim != 1 or f.shape[0] != fs:
+            ctx.violation("flatten-wrong-size", {"space": mrepr(m), "flat_size": fs, "got_shape": f.shape})
+        elif f.dtype.kind != "f":
+            ctx.violation("flatten-not-float", {"space": mrepr(m), "dtype": str(f.dtype)})
+        elif not np.isfinite(f).all():
+            ctx.violation("flatten-nonfinite", {"space": mrepr(m), "value": xdesc(x), "got": f})
+    # injectivity over all pairs with identical flattening
+    groups = {}
+    for x, f in zip(values, flats):
+        if f is not None:
+            groups.setdefault((f.shape, f.tobytes()), []).append(x)
+    for g in groups.values():
+        for y in g[1:]:
+            ctx.monitor("flatten_equal_image_pairs")
+            if not values_equal(g[0], y):
+                d = first_difference(m, g[0], y)
+                if d is not None:
+                    ctx.violation(inj_key(*d), {"space": mrepr(m), "a": d[1], "b": d[2], "same_flattening": True})
+    n = len([f for f in flats if f is not None])
+    ctx.monitor("flatten_pairs_compared", n * (n - 1) // 2)
+
+
+def flatten_values(ctx, m, space, n_sample, n_member, base):
+    from vlib.c14_helpers import (gen_member, get_node, get_value, leaf_paths, produced_problems, set_value,
+                                  to_numpy)
+
+    vals = []
+    for j in range(n_sample):
+        try:
+            v = to_numpy(space.sample(key=ctx.key(base + j)))
+        except Exception:  # noqa: BLE001
+            continue  # judged in the sample units
+        if not produced_problems(m, v):
+            vals.append(v)
+    for mode in ["low", "high"] + ["random"] * n_member:
+        vals.append(gen_member(ctx.rng, m, mode))
+    # near pairs: one element of one leaf changed
+    lps = leaf_paths(m)
+    for x in list(vals[: 2 + n_member]):
+        path = lps[int(ctx.rng.integers(len(lps)))] if lps else None
+        if path is None:
+            continue
+        nv = near_value(ctx.rng, get_node(m, path), get_value(m, x, path))
+        if nv is not None:
+            vals.append(set_value(m, x, path, nv))
+            ctx.monitor("flatten_near_pairs")
+    return vals
+
+
+def u_flatten(ctx):
+    from vlib.c14_helpers import build, gen_leaf, gen_nested
+
+    N = ctx.n(80, 500)
+    for i in range(N):
+        if i % 3 == 0:
+            m = gen_leaf(ctx.rng, tame=(i % 2 == 0))
+        else:
+            m = gen_nested(ctx.rng, 1 + i % 3, tame=True, root=["dict", "tuple"][i % 2])
+        try:
+            space = build(m, variant=i)
+        except Exception as e:  # noqa: BLE001
+            ctx.violation("nested-construction-raises", {"model": str(m)[:300], "err": repr(e)[:200]})
+            continue
+        vals = flatten_values(ctx, m, space, ctx.n(3, 5), ctx.n(3, 5), i * 100)
+        run_flatten(ctx, m, space, vals, "nested" if m["k"] in ("tuple", "dict") else "leaf")
+        ctx.monitor("spaces_flattened")
+    # indices beyond float32's integer range (2**24): neighbours must still be told apart
+    for n in (2**24 + 3, 2**25, 2**31 - 1):
+        m = {"k": "discrete", "n": n}
+        space = build(m)
+        vals = [np.asarray(v, np.int32) for v in (2**24, 2**24 + 1, 2**24 + 2, n - 1, n - 2, 0, 1)]
+        run_flatten(ctx, m, space, vals, "large-discrete")
+    m = {"k": "multidiscrete", "nvec": (3, 2**25)}
+    run_flatten(ctx, m, build(m), [np.asarray(v, np.int32) for v in ([1, 2**24], [1, 2**24 + 1], [2, 5])], "large-multidiscrete")
+    # the empty Dict has flat_size 0 and one member
+    m = {"k": "dict", "items": []}
+    run_flatten(ctx, m, build(m), [OrderedDict()], "empty-dict")
+    ctx.require("flatten_outputs_checked", 500)
+    ctx.require("flatten_pairs_compared", 2000)
+    ctx.require("flatten_near_pairs", 100)
+
+
+# ---------------------------------------------------------------------------------- equality / hashing
+def mutate_node(rng, node):
+    """[(mutation-name, new node)] single-field mutations of one node; every result is structurally unequal."""
+    from vlib.c14_helpers import gen_leaf, models_equal
+
+    k = node["k"]
+    out = []
+    if k == "discrete":
+        out.append(("n-changed", {"k": "discrete", "n": node["n"] + 1}))
+        if node["n"] > 1:
+            out.append(("n-changed", {"k": "discrete", "n": node["n"] - 1}))
+        out.append(("kind-changed", {"k": "multidiscrete", "nvec": (node["n"],)}))
+        if node["n"] < 64:
+            out.append(("kind-changed", {"k": "multibinary", "shape": (node["n"],)}))
+            out.append(("kind-changed", {"k": "box", "low": np.zeros((), np.float32), "high": np.asarray(node["n"] - 1, np.float32)}))
+    elif k == "box":
+        lo, hi = node["low"], node["high"]
+        if lo.size:
+            for which in ("low", "high"):
+                arr = node[which].ravel().copy()
+                i = int(rng.integers(arr.size))
+                d = np.float32(-np.inf if which == "low" else np.inf)
+                choice = int(rng.integers(3))
+                with np.errstate(all="ignore"):
+                    if not np.isfinite(arr[i]):
+                        arr[i] = np.float32(-1e3 if which == "low" else 1e3)
+                    elif choice == 0:
+                        arr[i] = np.nextafter(arr[i], d)
+                    elif choice == 1:
+                        arr[i] = d
+                    else:
+                        arr[i] = arr[i] + (np.float32(-1) if which == "low" else np.float32(1)) * (np.abs(arr[i]) + np.float32(1))
+                new = {"k": "box", "low": lo.copy(), "high": hi.copy()}
+                new[which] = arr.reshape(lo.shape)
+                out.append((f"{which}-bound-changed", new))
+        shapes = [lo.shape + (1,), (1,) + lo.shape]
+        if lo.ndim >= 2:
+            shapes.append((lo.size,))
+            if lo.shape != lo.T.shape:
+                out.append(("shape-changed", {"k": "box", "low": lo.T.copy(), "high": hi.T.copy()}))
+        for sh in shapes:
+            out.append(("shape-changed", {"k": "box", "low": lo.reshape(sh).copy(), "high": hi.reshape(sh).copy()}))
+        if lo.ndim == 1:
+            out.append(("shape-changed", {"k": "box", "low": np.concatenate([lo, lo[-1:]]), "high": np.concatenate([hi, hi[-1:]])}))
+        if lo.ndim == 1 and np.all(lo == 0) and np.all(hi == 1):
+            out.append(("kind-changed", {"k": "multibinary", "shape": lo.shape}))
+    elif k == "multibinary":
+        sh = tuple(node["shape"])
+        out.append(("shape-changed", {"k": "multibinary", "shape": sh[:-1] + (sh[-1] + 1,)}))
+        out.append(("shape-changed", {"k": "multibinary", "shape": sh + (1,)}))
+        if len(sh) > 1:
+            out.append(("shape-changed", {"k": "multibinary", "shape": (int(np.prod(sh)),)}))
+            if sh != sh[::-1]:
+                out.append(("shape-changed", {"k": "multibinary", "shape": sh[::-1]}))
+        out.append(("kind-changed", {"k": "multidiscrete", "nvec": (2,) * int(np.prod(sh))}))
+        out.append(("kind-changed", {"k": "box", "low": np.zeros(sh, np.float32), "high": np.ones(sh, np.float32)}))
+    elif k == "multidiscrete":
+        nv = list(node["nvec"])
+        i = int(rng.integers(len(nv)))
+        out.append(("nvec-changed", {"k": "multidiscrete", "nvec": tuple(nv[:i] + [nv[i] + 1] + nv[i + 1:])}))
+        out.append(("nvec-extended", {"k": "multidiscrete", "nvec": tuple(nv + [nv[-1]])}))
+        if len(nv) > 1:
+            out.append(("nvec-truncated", {"k": "multidiscrete", "nvec": tuple(nv[:-1])}))
+        if nv != nv[::-1]:
+            out.append(("nvec-permuted", {"k": "multidiscrete", "nvec": tuple(nv[::-1])}))
+        if len(nv) == 1:
+            out.append(("kind-changed", {"k": "discrete", "n": nv[0]}))
+    elif k == "tuple":
+        items = list(node["items"])
+        out.append(("extra-components", {"k": "tuple", "items": items + [gen_leaf(rng, tame=True)]}))
+        out.append(("extra-components", {"k": "tuple", "items": items + [items[-1]]}))
+        if len(items) > 1:
+            out.append(("extra-components", {"k": "tuple", "items": items[:-1]}))
+            i, j = (int(v) for v in rng.permutation(len(items))[:2])
+            if not models_equal(items[i], items[j]):
+                sw = list(items)
+                sw[i], sw[j] = sw[j], sw[i]
+                out.append(("components-permuted", {"k": "tuple", "items": sw}))
+        out.append(("kind-changed", {"k": "dict", "items": [(str(i), s) for i, s in enumerate(items)]}))
+    else:
+        items = list(node["items"])
+        out.append(("extra-keys", {"k": "dict", "items": items + [("extra_key", gen_leaf(rng, tame=True))]}))
+        if items:
+            out.append(("extra-keys", {"k": "dict", "items": items[:-1]}))
+            i = int(rng.integers(len(items)))
+            out.append(("key-renamed", {"k": "dict", "items": [(("renamed_" + a) if t == i else a, b) for t, (a, b) in enumerate(items)]}))
+            out.append(("kind-changed", {"k": "tuple", "items": [b for _, b in items]}))
+        if len(items) > 1:
+            i, j = (int(v) for v in rng.permutation(len(items))[:2])
+            if not models_equal(items[i][1], items[j][1]):
+                sw = list(items)
+                sw[i], sw[j] = (sw[i][0], sw[j][1]), (sw[j][0], sw[i][1])
+                out.append(("values-permuted", {"k": "dict", "items": sw}))
+    if k not in ("tuple",):
+        out.append(("wrapped-in-tuple", {"k": "tuple", "items": [node]}))
+    return [(name, new) for name, new in out if not models_equal(node, new)]
+
+
+def eq_call(a, b):
+    try:
+        r = a == b
+    except Exception as e:  # noqa: BLE001
+        return ("raised", f"{type(e).__name__}: {str(e)[:150]}")
+    if isinstance(r, (bool, np.bool_)):
+        return ("ok", bool(r))
+    return ("notbool", type(r).__name__)
+
+
+def hash_call(a):
+    try:
+        h = hash(a)
+    except Exception as e:  # noqa: BLE001
+        return ("raised", f"{type(e).__name__}: {str(e)[:150]}")
+    return ("ok", h)
+
+
+def judge_equal_pair(ctx, m, a, b, tag):
+    """a, b built from structurally equal models."""
+    from vlib.c14_helpers import has_kind, mrepr
+
+    root = m["k"]
+    ctx.case({"sp": mrepr(m), "rel": "equal", "tag": tag}, nontrivial=a is not b, cls=f"eq/equal/{root}/{tag}")
+    ctx.monitor("equal_pairs_judged")
+    owner = "dict" if has_kind(m, "dict") else root
+    for x, y, d in ((a, b, "a==b"), (b, a, "b==a")):
+        st, r = eq_call(x, y)
+        if st != "ok":
+            ctx.violation(f"{owner}-eq-{'raises' if st == 'raised' else 'not-boolean'}", {"space": mrepr(m), "dir": d, "got": r})
+        elif r is not True:
+            ctx.violation(f"{owner}-eq-false-for-equal", {"space": mrepr(m), "dir": d, "tag": tag, "got": r, "want": True})
+        else:
+            try:
+                if x != y:
+                    ctx.violation("ne-inconsistent-with-eq", {"space": mrepr(m)})
+            except Exception as e:  # noqa: BLE001
+                ctx.violation("ne-raises", {"space": mrepr(m), "err": repr(e)[:200]})
+    (sa, ha), (sb, hb) = hash_call(a), hash_call(b)
+    ctx.monitor("hash_pairs_judged")
+    if sa != "ok" or sb != "ok":
+        ctx.violation(f"{owner}-hash-raises", {"space": mrepr(m), "got": ha if sa != "ok" else hb})
+    elif ha != hb:
+        ctx.violation(f"{root}-hash-differs-for-equal", {"space": mrepr(m), "tag": tag, "hashes": [ha, hb]})
+
+
+def judge_unequal_pair(ctx, m, m2, a, b, nodekind, mutation):
+    from vlib.c14_helpers import has_kind, mrepr
+
+    ctx.case({"a": mrepr(m), "b": mrepr(m2), "rel": mutation}, nontrivial=True, cls=f"eq/unequal/{nodekind}/{mutation}")
+    ctx.monitor("unequal_pairs_judged")
+    if not (has_kind(m, "dict") or has_kind(m2, "dict")):
+        ctx.monitor("unequal_pairs_judged_without_dict")
+    for x, y, d in ((a, b, "a==b"), (b, a, "b==a")):
+        st, r = eq_call(x, y)
+        if st != "ok":
+            ctx.violation(f"{nodekind}-eq-{'raises' if st == 'raised' else 'not-boolean'}",
+                          {"a": mrepr(m), "b": mrepr(m2), "dir": d, "got": r})
+        elif r is not False:
+            ctx.violation(f"{nodekind}-eq-ignores-{mutation}", {"a": mrepr(m), "b": mrepr(m2), "dir": d, "got": r, "want": False})
+
+
+def u_equality(ctx):
+    import gymnasium as gym
+    from vlib.c14_helpers import (build, build_gym, copy_model, gen_leaf, gen_nested, get_node, has_kind, mrepr,
+                                  node_paths, replace_node)
+
+    rng = ctx.rng
+    N = ctx.n(150, 1000)
+    for i in range(N):
+        fam = i % 4
+        if fam == 0:
+            m = gen_leaf(rng)
+        elif fam == 1:
+            m = gen_nested(rng, 1 + (i // 4) % 3, kinds=("discrete", "box", "multibinary", "multidiscrete"), root="tuple")
+            # Tuple-only family: replace any Dict below by a Tuple so that Tuple/leaf equality is judged on its own
+            def undict(x):
+                if x["k"] == "dict":
+                    return {"k": "tuple", "items": [undict(s) for _, s in x["items"]]}
+                if x["k"] == "tuple":
+                    return {"k": "tuple", "items": [undict(s) for s in x["items"]]}
+                return x
+            m = undict(m)
+        else:
+            m = gen_nested(rng, 1 + (i // 4) % 3, root=["dict", "tuple"][fam % 2])
+        try:
+            a = build(m, variant=i)
+            b = build(copy_model(m), variant=i + 1 + int(rng.integers(3)))
+        except Exception as e:  # noqa: BLE001
+            ctx.violation("nested-construction-raises", {"model": mrepr(m), "err": repr(e)[:200]})
+            continue
+        judge_equal_pair(ctx, m, a, b, "copy")
+        if i % 10 == 0:
+            judge_equal_pair(ctx, m, a, a, "identity")
+        # single-field mutations at random nodes
+        paths = node_paths(m)
+        for path in [paths[int(t)] for t in rng.permutation(len(paths))[: ctx.n(3, 4)]]:
+            node = get_node(m, path)
+            muts = mutate_node(rng, node)
+            for t in rng.permutation(len(muts))[: ctx.n(3, 5)]:
+                name, new = muts[int(t)]
+                m2 = replace_node(m, path, new)
+                try:
+                    b2 = build(m2, variant=i + 2)
+                except Exception as e:  # noqa: BLE001
+                    ctx.violation("nested-construction-raises", {"model": mrepr(m2), "err": repr(e)[:200]})
+                    continue
+                judge_unequal_pair(ctx, m, m2, a, b2, node["k"], name)
+        # comparison with things that are not lerax spaces
+        foreign = [("none", None), ("int", 0), ("str", "x"), ("list", [a]), ("type", type(a))]
+        try:
+            foreign.append(("gym-space", build_gym(m)))
+        except Exception:  # noqa: BLE001
+            pass
+        if m["k"] == "tuple":
+            foreign.append(("tuple-of-spaces", tuple(a.spaces)))
+        if m["k"] == "dict":
+            foreign.append(("ordereddict-of-spaces", OrderedDict(a.spaces)))
+            foreign.append(("dict-of-spaces", dict(a.spaces)))
+        if m["k"] == "discrete":
+            foreign.append(("its-n", m["n"]))
+        if m["k"] == "multidiscrete":
+            foreign.append(("its-nvec", tuple(m["nvec"])))
+        if m["k"] == "multibinary":
+            foreign.append(("its-shape", tuple(m["shape"])))
+        for name, f in foreign:
+            ctx.case({"sp": mrepr(m), "rel": "foreign", "other": name}, nontrivial=True, cls=f"eq/foreign/{m['k']}/{name}")
+            ctx.monitor("foreign_eq_judged")
+            st, r = eq_call(a, f)
+            if st != "ok":
+                ctx.violation(f"{m['k']}-eq-raises-for-foreign", {"space": mrepr(m), "other": name, "got": r})
+            elif r is not False:
+                ctx.violation(f"{m['k']}-eq-true-for-foreign-{name}", {"space": mrepr(m), "other": name, "got": r, "want": False})
+    # signed zero: == is not asserted, but == must imply equal hashes
+    for i in range(ctx.n(20, 100)):
+        sh = [(), (2,), (2, 2)][i % 3]
+        z = np.where(rng.random(sh) < 0.5, np.float32(0.0), np.float32(-0.0)).astype(np.float32)
+        other = (rng.uniform(0.5, 2, sh)).astype(np.float32)
+        low_side = i % 2 == 0
+        m1 = {"k": "box", "low": z, "high": other} if low_side else {"k": "box", "low": -other, "high": z}
+        zz = (-z).astype(np.float32)  # flips every zero's sign
+        m2 = {"k": "box", "low": zz, "high": other} if low_side else {"k": "box", "low": -other, "high": zz}
+        if i % 4 >= 2:
+            m1, m2 = ({"k": "tuple", "items": [m1, {"k": "discrete", "n": 3}]},
+                      {"k": "tuple", "items": [m2, {"k": "discrete", "n": 3}]})
+        a, b = build(m1, variant=1), build(m2, variant=1)
+        ctx.case({"a": mrepr(m1), "b": mrepr(m2), "rel": "signed-zero"}, nontrivial=True, cls="eq/signed-zero")
+        st, r = eq_call(a, b)
+        (sa, ha), (sb, hb) = hash_call(a), hash_call(b)
+        ctx.monitor("signed_zero_pairs_judged")
+        if st != "ok" or sa != "ok" or sb != "ok":
+            ctx.violation("box-eq-raises", {"a": mrepr(m1), "b": mrepr(m2), "got": [r, ha, hb]})
+        elif r and ha != hb:
+            ctx.violation("box-eq-hash-disagree-signed-zero", {"a": mrepr(m1), "b": mrepr(m2), "eq": r, "hashes": [ha, hb]})
+    # permuted Dict keys: not asserted, must answer
+    for i in range(ctx.n(10, 40)):
+        m = gen_nested(rng, 1, root="dict")
+        if len(m["items"]) < 2:
+            continue
+        m2 = {"k": "dict", "items": list(reversed(m["items"]))}
+        st, r = eq_call(build(m), build(m2))
+        ctx.monitor("permuted_dict_pairs_not_asserted")
+        if st != "ok":
+            ctx.violation("dict-eq-raises", {"a": mrepr(m), "b": mrepr(m2), "got": r})
+    ctx.require("equal_pairs_judged", 100)
+    ctx.require("unequal_pairs_judged_without_dict", 200)
+    ctx.require("hash_pairs_judged", 100)
+    ctx.require("foreign_eq_judged", 300)
+    ctx.require("signed_zero_pairs_judged", 10)
 
 
 def run_unit(name, ctx):
